@@ -46,6 +46,10 @@ claim('C05',
       'The real Emitter and the real Scanner + Parser are executed symbolically end to end on event streams whose ingredients are solver variables: the scalar value (one free character over the whole code-point range; 2-character strings over a 34-character class alphabet), the requested style (6), the implicit pair (4), anchor, tag kind (7, one with a free ASCII character and boundary code points of every UTF-8 length class), the skeleton (6), %YAML / %TAG directives, canonical, allow_unicode, width. The parsed events must equal the emitted ones up to legitimate tag elision. Every sequence of up to 4 (5) events over the 10 event classes is fed to the emitter (only EmitterError allowed), and the prepare_* helpers are decided on every string of up to 2 (3) characters.',
       'Py leg only. %TAG prefixes/handles are picked from class representatives (a dict of handles cannot hold a symbolic key); lone surrogates in tags are outside the claim. Trusted: CrossHair/z3, models M1 (line-based in emitter.py), M2, M4e. Fixed findings F2, F3.')
 
+claim('C11',
+      'One step from an arbitrary pre-state for each per-document reset: the real Parser (tag handles = empty / the class-level DEFAULT_TAGS object itself / foreign handles, stale version, up to 2 directive tokens of 5 kinds, explicit or implicit document), Composer, Constructor, Representer, Serializer and Emitter are run on one document and their state compared with what the document alone defines; a deep snapshot of every module- and class-level container of the yaml package is compared before and after each API call explored symbolically (every short input, error paths included) and over a corpus; every ordered pair of a 12-document corpus is loaded as a stream and compared with the documents loaded alone. The selectors are solver variables and every cell closes its path tree.',
+      'Py leg only. Token/event sources of the one-step harnesses are stubs. The inductive argument covers call histories of any length only as far as the snapshot covers the global state (all dict/list/set attributes of yaml.* modules and classes).')
+
 NA = {
  'C06': 'every comparison is between two artefacts of libyaml (a compiled system .so behind a Cython binding that cannot be rebuilt offline); symbolic values are realised at the extension boundary, so no solver variable survives into the code under comparison',
  'C20': 'asymptotic growth over input sizes: bounded symbolic execution cannot observe doubling and an unbounded cost argument is proof-assistant work; the anchored look-ahead mechanisms are decided as one-step invariants under C09/C18',
